@@ -425,7 +425,7 @@ def check_bm_vsh(ctx, k):
     cell = lambda mem, off: z3.Concat(*[z3.Select(mem, p + BV(off + i, 64)) for i in reversed(range(4))])
     data = lambda r: z3.If(r == 0, BV(0, 64), b0 + zext(r, 64))
     fn = lambda r: z3.If(r == 0, BV(0, 64), BV(FN_TAG, 64) | zext(r ^ BV(FN_XOR, 32), 64))
-    if k == "k_bm_load_vsh":
+    if k in ("k_bm_load_vsh", "k_bm_cav_vsh"):
         paths = ctx.run(k, [b0, p])
         for q in paths:
             if q.status == "ret":
@@ -500,7 +500,7 @@ def jobs(tier, seed):
             out.append(Job("C08_%s_%s" % (sbx, st.name), src, chks, compare_logs=True))
     out.append(Job("C08_BM_vsh_other_destroyed", '#define C08_EARLIER_DESTROYED\n#include "C08_bm.inc"\n',
                    [dict(name="BM struct with Fn*, Fn and int* fields after an earlier sandbox was destroyed: " + k, fn=check_bm_vsh, kw=dict(k=k)) for k in ("k_bm_load_vsh", "k_bm_store_vsh")], native=False))
-    out.append(Job("C08_BM_vsh", '#include "C08_bm.inc"\n', [dict(name="BM struct with Fn*, Fn and int* fields: " + k, fn=check_bm_vsh, kw=dict(k=k)) for k in ("k_bm_load_vsh", "k_bm_store_vsh", "k_bm_byval_vsh")], native=False))
+    out.append(Job("C08_BM_vsh", '#include "C08_bm.inc"\n', [dict(name="BM struct with Fn*, Fn and int* fields: " + k, fn=check_bm_vsh, kw=dict(k=k)) for k in ("k_bm_load_vsh", "k_bm_store_vsh", "k_bm_byval_vsh", "k_bm_cav_vsh")], native=False))
     from specs import C07
     out.append(Job("C08_BM_nested", '#include "C07_bm2.inc"\n', [dict(name="BM nested struct " + k, fn=C07.check_bm2, kw=dict(k=k)) for k in ("k_bm_store_nested", "k_bm_load_nested")], native=False))
     return out
